@@ -160,6 +160,7 @@ func checkC13(w *World, r *Run) {
 	// 1. LastModified mapping
 	sp := w.SSA[w.Pkg(relSQLStore).Types]
 	nLM := 0
+	lmFrom := map[string][]string{}
 	for _, fn := range w.allFuncs {
 		if fn.Pkg != sp {
 			continue
@@ -190,8 +191,22 @@ func checkC13(w *World, r *Run) {
 				return
 			}
 			nLM++
+			lmFrom[from] = append(lmFrom[from], w.Pos(posOf(st)))
 			r.OK(ruleLM, fmt.Sprintf("%s LastModified ← %s #%d", shortSQLFunc(fn), from, nLM), posOf(st), "mapping site")
 		})
+	}
+	// every read path must report the same column: a version whose HEAD and listing disagree
+	// on Last-Modified has no stable value at all
+	if len(lmFrom) > 1 {
+		minor, where := "", ""
+		for k, v := range lmFrom {
+			if minor == "" || len(v) < len(lmFrom[minor]) {
+				minor, where = k, v[0]
+			}
+		}
+		r.Bad(ruleLM, "LastModified is read from one column on every path", 0, "most read paths map LastModified from one column but "+where+" maps it from "+minor+": the same version reports different Last-Modified values depending on the request")
+	} else {
+		r.OK(ruleLM, "LastModified is read from one column on every path", 0, "all mapping sites agree")
 	}
 	// 2. update statements
 	for _, s := range stmts {
